@@ -162,8 +162,8 @@ CheckWit(i) ==
       s08 == [k |-> "fin", s |-> 1, e |-> -52, m |-> <<3277, 13107, 3276, 819>>]
       pic == [th |-> Pi, h |-> 4, c |-> [k |-> "fin", s |-> 1, e |-> -49, m |-> <<13771, 13309, 8855, 125>>],
               s |-> [k |-> "fin", s |-> 1, e |-> -54, m |-> <<4869, 14547, 1473, 799>>]]
-      qinf == [lam |-> DShift(DOne, -1), F |-> DInt(4), finite |-> FALSE, XPD |-> DZero, EPD |-> DZero, mag |-> DZero]
-      qfin == [lam |-> DShift(DOne, -1), F |-> DInt(4), finite |-> TRUE, XPD |-> DInt(-10), EPD |-> DInt(10), mag |-> DNeg(DOne)]
+      qinf == [lam |-> DShift(DOne, -1), F |-> DInt(4), finite |-> FALSE, nu |-> DShift(DOne, -3)]
+      qfin == [lam |-> DShift(DOne, -1), F |-> DInt(4), finite |-> TRUE, nu |-> DShift(DOne, -4)]
   IN
   [accept |-> JudgePsf(ev) \subseteq {"~flat"} /\ "~flat" \notin JudgePsf(ev)
               /\ JudgePsf(Flat8) = {"~flat"},
